@@ -2,6 +2,7 @@ package props
 
 import (
 	"fmt"
+	"sort"
 	"strings"
 
 	"mgcheck/core"
@@ -713,7 +714,11 @@ func c14Flow(c *core.Ctx) {
 		k := &astKit{c: c, ok: true}
 		in := ordabs.New(c.Prog)
 		in.InstallTimeStubs()
-		subst := func() ordabs.Value { return &ordabs.Rec{Fields: map[string]ordabs.Value{}, T: "unionfind.UnionFind"} }
+		nSubst := 0
+		subst := func() ordabs.Value {
+			nSubst++
+			return &ordabs.Rec{Fields: map[string]ordabs.Value{"solution#": int64(nSubst)}, T: "unionfind.UnionFind"}
+		}
 		in.Stubs["unionfind.New"] = func(in *ordabs.Interp, _ ordabs.Value, _ []ordabs.Value) ([]ordabs.Value, error) {
 			return []ordabs.Value{subst()}, nil
 		}
@@ -734,11 +739,20 @@ func c14Flow(c *core.Ctx) {
 		ht := &ordabs.Obj{Name: "head-time", Fields: k.zero("ast", "Interval").Fields, T: "ast.Interval"}
 		resolved := &ordabs.Obj{Name: "resolved", Fields: k.zero("ast", "Interval").Fields, T: "ast.Interval"}
 		failResolve := false
+		perSolution := false
 		sawArg := ""
 		in.Stubs["engine.ResolveHeadTime"] = func(in *ordabs.Interp, _ ordabs.Value, a []ordabs.Value) ([]ordabs.Value, error) {
 			sawArg = objName(a[0])
 			if failResolve {
 				return []ordabs.Value{(*ordabs.Obj)(nil), ordabs.ErrVal{Tag: "unresolvable"}}, nil
+			}
+			if perSolution {
+				// the annotation's variables take their values from the solution: one interval per solution
+				id := int64(-1)
+				if sr, ok := a[1].(*ordabs.Rec); ok {
+					id, _ = sr.Fields["solution#"].(int64)
+				}
+				return []ordabs.Value{&ordabs.Obj{Name: fmt.Sprintf("resolved-for-solution-%d", id), Fields: k.zero("ast", "Interval").Fields, T: "ast.Interval"}, nil}, nil
 			}
 			return []ordabs.Value{resolved, nil}, nil
 		}
@@ -789,6 +803,46 @@ func c14Flow(c *core.Ctx) {
 					bad = "ResolveHeadTime is called with " + sawArg + ", not with the clause's own head annotation"
 				}
 			}
+			// the annotation is resolved for every solution with that solution, whatever the kinds of its bounds
+			perSolution = true
+			vb, hasVB := constInt(c.Prog, "ast", "VariableBound")
+			if !hasVB {
+				c.Unres(rC14Flow, "ast.VariableBound", 0, "anchor-unresolved")
+			}
+			for st := int64(0); st < 5 && bad == ""; st++ {
+				for en := int64(0); en < 5 && bad == ""; en++ {
+					eng, cl := mk(true)
+					hx := k.zero("ast", "Interval")
+					if sb, ok := hx.Fields["Start"].(*ordabs.Rec); ok {
+						sb.Fields["Type"] = st
+					}
+					if eb, ok := hx.Fields["End"].(*ordabs.Rec); ok {
+						eb.Fields["Type"] = en
+					}
+					cl.Fields["HeadTime"] = &ordabs.Obj{Name: "head-time", Fields: hx.Fields, T: "ast.Interval"}
+					in.Reset()
+					nSubst = 0
+					out, err := in.Call(f, eng, []ordabs.Value{cl})
+					if !runORD(c, rC14Flow, f.Name, f, err) {
+						return
+					}
+					var got []string
+					if sl, _ := out[0].(*ordabs.Slice); sl != nil && sl.Elems != nil {
+						for _, d := range *sl.Elems {
+							iv, _ := d.(*ordabs.Rec).Fields["Interval"].(*ordabs.Obj)
+							got = append(got, objName(iv))
+						}
+					}
+					sort.Strings(got)
+					// solution numbers: the initial substitution is #1, the premise yields #2 and #3
+					// an annotation without variables may be resolved once; one with a variable bound must be resolved per solution
+					needDistinct := hasVB && (st == vb || en == vb)
+					if len(got) != fan || needDistinct && got[0] == got[1] || !strings.HasPrefix(got[0], "resolved-for-solution-") || !strings.HasPrefix(got[1], "resolved-for-solution-") {
+						bad = fmt.Sprintf("head annotation with bound kinds (%d,%d) and two body solutions: the derived facts carry %v; each must carry the interval resolved with its own solution (an end bound that is a variable differs from solution to solution)", st, en, got)
+					}
+				}
+			}
+			perSolution = false
 			failResolve = true
 			eng, cl := mk(true)
 			in.Reset()
